@@ -131,7 +131,7 @@ impl Property for C09 {
         "C09"
     }
     fn rule(&self) -> String {
-        "frames (Init, Sync, Abort) produced by real reconciliation sessions between two replicas of 0-8 entries each: encoded with the real codec and compared with the Lean encoder; their concatenation fed back in random chunkings, at every two-chunk split point and truncated at every length; single-byte corruptions (random, and for small frames every byte with two masks); oversized length prefixes; document tickets with 0-4 nodes (id only / IP address / relay URL / both) and capabilities through their byte, string and raw forms; random byte strings (biased towards valid prefixes) to the frame decoder, the message decoder, the entry decoder, AuthorHeads, DocTicket, Capability and DownloadPolicy decoders under catch_unwind; non-trivial = at least one frame carrying entries took part".into()
+        "frames (Init, Sync, Abort) produced by real reconciliation sessions between two replicas of 0-8 entries each: encoded with the real codec and compared with the Lean encoder; their concatenation fed back in random chunkings, at every two-chunk split point and truncated at every length; single-byte corruptions (random, and for small frames every byte with two masks); oversized length prefixes; document tickets with 0-4 nodes (id only / IP address / relay URL / both) and capabilities through their byte, string and raw forms; random byte strings (biased towards valid prefixes) and texts glued from multi-byte characters, prefixes and white space to the textual decoders (tickets, filters, ids, keys); random byte strings to the frame decoder, the message decoder, the entry decoder, AuthorHeads, DocTicket, Capability and DownloadPolicy decoders under catch_unwind; non-trivial = at least one frame carrying entries took part".into()
     }
     fn corpus(&self) -> Vec<(String, Vec<Op>)> {
         let p = |side: u8, a: usize, k: &[u8], c: Option<usize>, ts: u64| Op::Put { side, a, key: k.to_vec(), c, ts };
@@ -465,6 +465,22 @@ impl Property for C09 {
                         let _ = postcard::from_bytes::<iroh_docs::store::DownloadPolicy>(&bb);
                         let _ = std::str::from_utf8(&bb).ok().map(|s| s.parse::<iroh_docs::store::FilterKind>());
                         let _ = std::str::from_utf8(&bb).ok().map(|s| s.parse::<DocTicket>());
+                        // the textual decoders on *text*: pieces with multi-byte characters, prefixes in both
+                        // cases and white space, glued together as the random bytes say (random bytes are
+                        // rarely valid UTF-8, and never interesting UTF-8)
+                        const PIECES: [&str; 24] = ["", " ", "d", "do", "doc", "DOC", "Doc", "docaa", "é", "€", "\u{fffd}", "𝄞", "a", "aa", "\t", "\n", "p:", "x:", ":", "61", "é:", "ß", "\u{0301}", "7"];
+                        for start in 0..bb.len().min(4) {
+                            let mut text = String::new();
+                            for x in bb.iter().skip(start).take(7) {
+                                text.push_str(PIECES[*x as usize % PIECES.len()]);
+                            }
+                            let _ = text.parse::<DocTicket>();
+                            let _ = text.parse::<iroh_docs::store::FilterKind>();
+                            let _ = text.parse::<iroh_docs::NamespaceId>();
+                            let _ = text.parse::<iroh_docs::AuthorId>();
+                            let _ = text.parse::<iroh_docs::Author>();
+                            let _ = text.parse::<iroh_docs::NamespaceSecret>();
+                        }
                     }).is_some();
                     lines.push(Line::oracle("sconst no-panic", if ok { "no-panic" } else { "a-decoder-panicked" }));
                 }
